@@ -20,6 +20,19 @@ def c07_classify(op, impl, spec):
     return None
 
 
+def dialects_preamble():
+    """defpkg lines written by tools/extract (alias chains resolved on the source text)."""
+    import os
+    p = os.path.join(os.path.dirname(os.path.dirname(os.path.abspath(__file__))), ".build", "gen.new", "dialects.txt")
+    return [l.strip() for l in open(p) if l.strip()] if os.path.exists(p) else []
+
+
+def enums_preamble():
+    import os
+    p = os.path.join(os.path.dirname(os.path.dirname(os.path.abspath(__file__))), ".build", "gen.new", "enums.txt")
+    return [l.strip() for l in open(p) if l.strip()] if os.path.exists(p) else []
+
+
 PROPS = {
     "C01": dict(lean=["Mav.Props.C01"], groups=[("C01", sizes(400, 30000))],
                 trusted=["frame model Mav/Model/Frame.lean hand-written; tied by TIE-D (marshal/read ops) and TIE-G (magic bytes, bufferSize, marshal/unmarshal sequences)"],
@@ -40,6 +53,11 @@ PROPS = {
                 trusted=["SHA-256 treated as an arbitrary function H in theorems; 'never delivered' rests on the 48-bit MAC assumption"]),
     "C08": dict(lean=["Mav.Props.C08"], groups=[("C08", sizes(150, 4000))],
                 trusted=["forwarding chain = composition of the reader and writer models (Driver hopChain); Node.FixFrame model in Mav/Model/Writer.lean"]),
+    "C17": dict(lean=["Mav.Props.C17"], groups=[("C17", sizes(1, 1))], table_crosscheck=True, preamble=dialects_preamble,
+                trusted=["published CRC_EXTRA values are represented by the spec recipe (serialization guide) and the values pinned in the repository; the C library's tables are not available offline"]),
+    "C19": dict(lean=["Mav.Props.C19"], groups=[("C19", sizes(1, 1))], preamble=enums_preamble,
+                trusted=["strconv.Itoa/Atoi and strings.Split/Join modelled (Mav/Model/EnumText.lean); validated by TIE-D on every enum type",
+                         "enum tables regenerated from the source text; the harness registry of enum types is generated from the same extraction"]),
     "C20": dict(lean=["Mav.Props.C20"], groups=[("C20", sizes(60, 1500))],
                 trusted=["time.Time modelled as (seconds, nanoseconds) with Go's time.Unix normalisation and UnixMicro made explicit (Mav/Model/Tlog.lean); validated by TIE-D on epochs around 1970 and at the int64 extremes"]),
     "C09": dict(lean=["Mav.Props.C09"], groups=[("C09", sizes(100, 600))],
